@@ -56,7 +56,7 @@ var methodLists = [][]string{{"CLAIMTOBE"}, {"FS"}, {"CLAIMTOBE", "FS"}, {"FS", 
 
 // peer kinds per role of the *peer*
 var serverPeers = []string{"honest", "auth-no", "enc-no", "enc-no-keep-key", "key-omit", "key-truncated", "key-random", "key-garbage", "no-common-cipher",
-	"select-unoffered", "select-several", "select-zero", "select-unknown", "postauth-denied", "postauth-clear", "postauth-identity", "auth-no-enc-no", "select-unlisted-and-run", "postauth-secret-attr"}
+	"select-unoffered", "select-several", "select-zero", "select-zero-carry-on", "select-unknown", "postauth-denied", "postauth-clear", "postauth-identity", "auth-no-enc-no", "select-unlisted-and-run", "postauth-secret-attr"}
 var clientPeers = []string{"honest", "never", "key-omit", "key-truncated", "key-random", "key-garbage", "no-common-cipher", "bits-unlisted", "bits-extra", "bits-zero", "enc-never"}
 var resumePeers = []string{"honest", "reply-denied", "reply-notfound", "no-key", "wrong-key"}
 
@@ -92,6 +92,9 @@ func peerOpts(c Case) kit.PeerOpts {
 		o.SelectBits = -1 // replaced below
 	case "select-unknown":
 		o.SelectBits = 1 << 20
+	case "select-zero-carry-on":
+		// "none of your methods" - and then the key-exchange message and an AUTHORIZED post-auth ad all the same
+		o.SelectZero = true
 	case "select-unlisted-and-run":
 		// select (and really perform) a method the endpoint never listed
 		switch {
